@@ -36,12 +36,14 @@ type isoAct struct {
 	D      time.Duration
 	KeepC  int
 	KeepB  int
+	Target int // slow-close: the upstream whose Close is abandoned (the slow-broker window itself is connection level)
 }
 
 type isoStream struct {
 	Up   bool
 	QoS  message.QoS
 	Spec upSpec
+	Late bool // opened by an "open-late" action, not at the start
 }
 
 type isoScript struct {
@@ -51,6 +53,8 @@ type isoScript struct {
 	PingIv  time.Duration
 	PingTo  time.Duration
 	Focus   int // stream whose behaviour is compared in differential mode
+	Reuse   bool // the broker reuses the stream id alias of a closed upstream
+	HasCut  bool
 }
 
 type isoObs struct {
@@ -63,6 +67,9 @@ type isoObs struct {
 	Resumed int
 	Final   string // working / closed
 	Foreign []string
+	// accepted points of an interval-flushed upstream that were written to the link later than one
+	// flush interval after the write had returned (only recorded in scripts without cuts)
+	LateFlush []string
 }
 
 type isoCarry struct {
@@ -106,11 +113,23 @@ func genIsoScript(s *Sim) *isoScript {
 	}
 	for i := 0; i < nUp; i++ {
 		sp := upSpec{QoS: Pick(t, "qos", message.QoSReliable, message.QoSUnreliable, message.QoSPartial, message.QoSReliable),
-			Policy: Pick(t, "policy", "immediate", "size", "interval", "none"), Size: 200, Interval: 200 * time.Millisecond, CloseTimeout: 5 * time.Second}
+			Policy: Pick(t, "policy", "immediate", "size", "interval", "none", "default"), Size: 200, Interval: 200 * time.Millisecond, CloseTimeout: 5 * time.Second}
 		sc.Streams = append(sc.Streams, isoStream{Up: true, QoS: sp.QoS, Spec: sp})
 	}
 	for i := 0; i < nDown; i++ {
 		sc.Streams = append(sc.Streams, isoStream{Up: false, QoS: Pick(t, "dqos", message.QoSReliable, message.QoSUnreliable)})
+	}
+	// an upstream whose Close is abandoned by the application while the broker is slow (late ack, late
+	// close response), followed by a new upstream that is given the same stream id alias
+	slowClose, lateStream := -1, -1
+	if nUp > 0 && t.Bool("abandoned-close+alias-reuse", 1, 4) {
+		sc.Reuse = true
+		slowClose = t.Choose("slow-close-which", nUp)
+		sc.Streams[slowClose].Spec.CloseTimeout = 200 * time.Millisecond
+		sp := upSpec{QoS: Pick(t, "qos", message.QoSReliable, message.QoSUnreliable, message.QoSPartial, message.QoSReliable),
+			Policy: Pick(t, "policy", "immediate", "size", "interval", "none", "default"), Size: 200, Interval: 200 * time.Millisecond, CloseTimeout: 5 * time.Second}
+		lateStream = len(sc.Streams)
+		sc.Streams = append(sc.Streams, isoStream{Up: true, QoS: sp.QoS, Spec: sp, Late: true})
 	}
 	sc.Focus = t.Choose("focus", len(sc.Streams))
 	n := Pick(t, "len", 40, 20, 80)
@@ -120,6 +139,10 @@ func genIsoScript(s *Sim) *isoScript {
 	cuts := Pick(t, "cuts", 1, 0, 1, 2)
 	closes := Pick(t, "closes", 0, 1)
 	for i := 0; i < n; i++ {
+		if slowClose >= 0 && i == n/3 {
+			sc.Acts = append(sc.Acts, isoAct{Kind: "slow-close", Stream: -1, Target: slowClose, ID: t.Choose("w-id", 3)})
+			sc.Acts = append(sc.Acts, isoAct{Kind: "open-late", Stream: lateStream})
+		}
 		st := t.Choose("a-stream", len(sc.Streams))
 		up := sc.Streams[st].Up
 		k := t.Choose("a-kind", 12)
@@ -157,6 +180,7 @@ func genIsoScript(s *Sim) *isoScript {
 				sc.Acts = append(sc.Acts, isoAct{Kind: "refuse", Stream: t.Choose("refuse-which", len(sc.Streams))})
 			}
 			sc.Acts = append(sc.Acts, isoAct{Kind: "cut", Stream: -1, KeepC: t.Choose("keep-c", 2), KeepB: t.Choose("keep-b", 2)})
+			sc.HasCut = true
 		case k == 11 && closes > 0 && i > n/2:
 			closes--
 			sc.Acts = append(sc.Acts, isoAct{Kind: "close-stream", Stream: st})
@@ -170,7 +194,7 @@ func genIsoScript(s *Sim) *isoScript {
 // execIsoScript runs the script; with only >= 0 every action that names another stream is
 // dropped (those streams are not even opened). It returns what each stream showed.
 func execIsoScript(s *Sim, sc *isoScript, only int) map[int]*isoObs {
-	bc := BrokerCfg{AutoReq: true, AutoAck: true, AutoPong: true, AutoCallAck: true, AutoAckComplete: true, AliasInAck: true}
+	bc := BrokerCfg{AutoReq: true, AutoAck: true, AutoPong: true, AutoCallAck: true, AutoAckComplete: true, AliasInAck: true, ReuseAliases: sc.Reuse}
 	y := newSys(s, bc)
 	y.Enc, y.PingInterval, y.PingTimeout = sc.Enc, sc.PingIv, sc.PingTo
 	s.yieldDensity = 0
@@ -186,7 +210,7 @@ func execIsoScript(s *Sim, sc *isoScript, only int) map[int]*isoObs {
 	ups := map[int]*upH{}
 	downs := map[int]*downH{}
 	for i, st := range sc.Streams {
-		if !in(i) {
+		if !in(i) || st.Late {
 			continue
 		}
 		var op *Op
@@ -217,12 +241,55 @@ func execIsoScript(s *Sim, sc *isoScript, only int) map[int]*isoObs {
 		}
 		ti := 1 + a.Stream
 		switch a.Kind {
+		case "slow-close":
+			// the slow-broker window (replies withheld for 3 s, then sent in order) is an event of the
+			// environment and happens in every projection; only the target's own calls are projected away
+			if !s.Idle(0) || len(y.aliveLinks()) == 0 {
+				break
+			}
+			s.Broker.Cfg.AutoReq, s.Broker.Cfg.AutoAck = false, false
+			tti := 1 + a.Target
+			if h := ups[a.Target]; in(a.Target) && h != nil && !closedByApp[a.Target] && s.Idle(tti) {
+				closedByApp[a.Target] = true
+				s.Stat("env.close-abandoned-while-broker-slow")
+				s.Start(tti, y.writeOp(h, tti, dataID(a.ID), []int{40}))
+				s.Wait()
+				s.Harvest()
+				y.flushLinks()
+				cl := y.closeUpOp(h)
+				cl.CtxKind, cl.Timeout = "deadline", time.Second
+				s.Start(0, cl)
+			}
+			for k := 0; k < 30; k++ {
+				y.Advance(100 * time.Millisecond)
+			}
+			// the slow broker now answers, in order: the late ack, then the close response
+			for len(s.Broker.Pend) > 0 {
+				s.Broker.Release(s.Broker.Pend[0], nil)
+			}
+			y.flushLinks()
+			s.Broker.Cfg.AutoReq, s.Broker.Cfg.AutoAck = true, true
+		case "open-late":
+			if ups[a.Stream] != nil || !s.Idle(0) || len(y.aliveLinks()) == 0 {
+				break
+			}
+			sp := sc.Streams[a.Stream].Spec
+			sp.Session = fmt.Sprintf("iso-%d", a.Stream)
+			op := y.openUpOp(sp)
+			h := op.Meta.(*upH)
+			h.Idx = a.Stream
+			s.Start(0, op)
+			s.Wait()
+			y.Pump()
+			if op.harvested && op.Err == nil {
+				ups[a.Stream] = h
+			}
 		case "write":
-			if h := ups[a.Stream]; s.Idle(ti) && !closedByApp[a.Stream] {
+			if h := ups[a.Stream]; h != nil && s.Idle(ti) && !closedByApp[a.Stream] {
 				s.Start(ti, y.writeOp(h, ti, dataID(a.ID), a.Sizes))
 			}
 		case "flush":
-			if h := ups[a.Stream]; s.Idle(ti) && !closedByApp[a.Stream] {
+			if h := ups[a.Stream]; h != nil && s.Idle(ti) && !closedByApp[a.Stream] {
 				op := y.flushOp(h)
 				op.CtxKind, op.Timeout = "deadline", 5*time.Second
 				s.Start(ti, op)
@@ -270,7 +337,7 @@ func execIsoScript(s *Sim, sc *isoScript, only int) map[int]*isoObs {
 			}
 			s.Nontrivial()
 		case "close-stream":
-			if s.Idle(0) && !closedByApp[a.Stream] {
+			if s.Idle(0) && !closedByApp[a.Stream] && (ups[a.Stream] != nil || downs[a.Stream] != nil) {
 				closedByApp[a.Stream] = true
 				var op *Op
 				if h := ups[a.Stream]; h != nil {
@@ -359,6 +426,33 @@ func execIsoScript(s *Sim, sc *isoScript, only int) map[int]*isoObs {
 			}
 		}
 		sort.Strings(o.Lost)
+		if pol := h.Spec.Policy; !sc.HasCut && (pol == "interval" || pol == "default") {
+			iv := h.Spec.Interval
+			if pol == "default" {
+				iv = 100 * time.Millisecond
+			}
+			sentAt := map[string]time.Duration{}
+			if h.B != nil {
+				for _, a := range h.B.Arrivals {
+					for _, p := range a.Points {
+						if _, ok := sentAt[ptKey(p)]; !ok {
+							sentAt[ptKey(p)] = a.SentAt
+						}
+					}
+				}
+			}
+			for _, w := range h.Writes {
+				if !(w.Op.harvested && w.Op.Err == nil) {
+					continue
+				}
+				for _, p := range w.Points {
+					if at, ok := sentAt[ptKey(p)]; ok && at-w.Op.ReturnT > iv+time.Millisecond {
+						o.LateFlush = append(o.LateFlush, ptKey(p))
+					}
+				}
+			}
+			sort.Strings(o.LateFlush)
+		}
 		o.Closed, o.Resumed = len(h.ClosedEv), len(h.ResumedEv)
 		// the ack hook of a stream only hears about that stream's own chunks
 		sent := map[uint32]bool{}
@@ -477,6 +571,7 @@ func compareIso(s *Sim, sc *isoScript, full, alone *isoObs) {
 	diff("points-received-by-broker", full.Arrived, alone.Arrived)
 	diff("points-lost", full.Lost, alone.Lost)
 	diff("write-results", full.Writes, alone.Writes)
+	diff("points-flushed-later-than-the-interval", full.LateFlush, alone.LateFlush)
 	if full.Final == "working" && alone.Final == "working" {
 		diff("read-results", full.Reads, alone.Reads)
 		diff("acknowledged-results", full.Acked, alone.Acked)
